@@ -7,9 +7,10 @@
   `Inv` is the invariant of reachable states (`reachable_inv`).  `Known s p`: `compl_uid` accepts `p`.
   `effOwner s owner peer` is the owner `_inject_task1` settles on for a peer and an optional `OWNER` field
   (`none`: refused); `effOwner_root` / `effOwner_user` spell it out.
-  Helper lemmas: Echse/Lemmas/Daemon*.lean.
+  `Fresh s` (section 5): the queue file of a user who is not marked dirty agrees with the table.
+  Helper lemmas: Echse/Lemmas/Daemon*.lean, DaemonQueue*.lean.
 -/
-import Echse.Lemmas.Daemon5
+import Echse.Lemmas.DaemonQueue2
 namespace C11
 open Echse.Daemon
 
@@ -195,6 +196,46 @@ theorem ticks_preserve_ownership {s : St} (h : Inv s) (op : Op) (hop : OpOk s op
     {k : String} {o : Nat} (hm : absMap (step s op).1 k = some o) : absMap s k = some o :=
   absMap_step_nonreq h op hop hnr hm
 
+/-! ### 5. the queue view -/
+
+/-- `GET /queue` changes the state at most by running a checkpoint: the states reachable with such requests are
+states reachable with `Op.chk` -/
+theorem queue_state (s : St) (p : Nat) (urlUid : Option Nat) :
+    (httpQueue s p urlUid).1 = s ∨ (httpQueue s p urlUid).1 = chkpnt s := httpQueue_state s p urlUid
+
+/-- `Fresh` (one queue file per user; unless marks were dropped, the file of a user who is not marked lists only
+tasks the table holds for that user, and every task of that user still to run) holds in every state reached by
+a history whose requests come from socket peers (`SockPeers`: no request carries `notAUid`, the daemon's value
+for "no peer"; see the example below for why this is needed): a request marks its peer and — `isolation_records`
+— changes only that peer's tasks; a retirement marks the owner; `chkpnt` rewrites the marked users' files, and
+after an overflow all owners' files, removing the others -/
+theorem reachable_fresh (m : Nat) (ops : List Op) (hm : Mono 0 ops) (hsp : SockPeers ops) :
+    Fresh (run { me := m } ops).1 :=
+  Fresh_run ops { me := m } (Inv_init m) (Fresh_init m) hm hsp
+
+/-- … preserved by every single operation -/
+theorem fresh_step {s : St} (h : Inv s) (hf : Fresh s) (op : Op) (hop : OpOk s op)
+    (hp : ∀ p ins, op = .req p ins → p ≠ notAUid) : Fresh (step s op).1 := Fresh_step h op hop hp hf
+
+/-- `queue_isolation`: a known peer other than root is refused (403), or answered 200 / 404 with a body that
+lists tasks of its own only, whatever uid the URL names -/
+theorem queue_isolation {s : St} (h : Inv s) (hf : Fresh s) {p : Nat} (hk : Known s p) (hp : p ≠ 0)
+    (urlUid : Option Nat) :
+    (httpQueue s p urlUid).2 = (403, []) ∨
+    (((httpQueue s p urlUid).2.1 = 200 ∨ (httpQueue s p urlUid).2.1 = 404) ∧
+      ∀ uid ∈ (httpQueue s p urlUid).2.2, absMap s uid = some p) := httpQueue_own h hf hk hp urlUid
+
+/-- `queue_complete`, `GET /queue`: every task of the peer that is still to run is listed, and the answer is 200
+when there is one.  (`p < 2 ^ 32`: the gate is the bit test `p &&& 0xFFFFFFFF = p`; `uid_t` has 32 bits.) -/
+theorem queue_complete {s : St} (hf : Fresh s) {p : Nat} (hk : Known s p) (hp : p ≠ 0) (h32 : p < 2 ^ 32) :
+    (∀ t ∈ tasksOf s p, t.uid ∈ (httpQueue s p none).2.2) ∧
+    (tasksOf s p ≠ [] → (httpQueue s p none).2.1 = 200) := httpQueue_all hf hk hp (gate_none h32)
+
+/-- `queue_complete`, `GET /u/<p>/queue` -/
+theorem queue_complete_url {s : St} (hf : Fresh s) {p : Nat} (hk : Known s p) (hp : p ≠ 0) :
+    (∀ t ∈ tasksOf s p, t.uid ∈ (httpQueue s p (some p)).2.2) ∧
+    (tasksOf s p ≠ [] → (httpQueue s p (some p)).2.1 = 200) := httpQueue_all hf hk hp (gate_self p)
+
 /-! ### concrete histories -/
 
 /-- a foreign cancel: reply `false`, map unchanged; the owner's cancel succeeds -/
@@ -235,5 +276,42 @@ example :
     httpSched (run { me := 0 } [.req 1001 [.sched "a" none 63 0 [10] true],
                                 .req 1003 [.sched "b" none 63 0 [10] true]]).1 1001 (some 1003) []
       = (200, ["a"]) := by decide
+
+/-- the queue view: two users, a checkpoint, a further request of 1001 (marked again): `GET /queue` runs the
+checkpoint first and lists the new task; 1002 sees its own file; `/u/1001/queue` is refused to 1002 -/
+example :
+    (httpQueue (run { me := 0 } [.req 1001 [.sched "a" none 63 0 [10] true],
+                                 .req 1002 [.sched "b" none 63 0 [20] true], .chk,
+                                 .req 1001 [.sched "c" none 63 0 [30] true]]).1 1001 none).2 = (200, ["a", "c"]) ∧
+    (httpQueue (run { me := 0 } [.req 1001 [.sched "a" none 63 0 [10] true],
+                                 .req 1002 [.sched "b" none 63 0 [20] true], .chk,
+                                 .req 1001 [.sched "c" none 63 0 [30] true]]).1 1002 none).2 = (200, ["b"]) ∧
+    (httpQueue (run { me := 0 } [.req 1001 [.sched "a" none 63 0 [10] true],
+                                 .req 1002 [.sched "b" none 63 0 [20] true], .chk,
+                                 .req 1001 [.sched "c" none 63 0 [30] true]]).1 1002 (some 1001)).2 = (403, []) := by
+  decide
+
+/-- why `reachable_fresh` asks for socket peers: a "request" carrying `notAUid` acts for the owner its `OWNER`
+field names (that is what `reload` does) but marks `notAUid`, not that owner; user 1001 then has a task and
+no file, and is not marked: `GET /queue` answers 404 -/
+example :
+    (httpQueue (run { me := 0 } [.req notAUid [.sched "x" (some 1001) 63 0 [10] true]]).1 1001 none).2 = (404, []) ∧
+    ((tasksOf (run { me := 0 } [.req notAUid [.sched "x" (some 1001) 63 0 [10] true]]).1 1001).map (·.uid)) = ["x"] ∧
+    (run { me := 0 } [.req notAUid [.sched "x" (some 1001) 63 0 [10] true]]).1.dirty = [notAUid] := by decide
+
+example : ¬ Fresh (run { me := 0 } [.req notAUid [.sched "x" (some 1001) 63 0 [10] true]]).1 := by
+  intro hf
+  have hB := (hf.2 (by decide) 1001 (by decide)).2
+  have hne : (tasksOf (run { me := 0 } [.req notAUid [.sched "x" (some 1001) 63 0 [10] true]]).1 1001).isEmpty
+      = false := by decide
+  have hfe : (run { me := 0 } [.req notAUid [.sched "x" (some 1001) 63 0 [10] true]]).1.files.isEmpty = true := by
+    decide
+  rw [List.isEmpty_iff] at hfe
+  cases hl : tasksOf (run { me := 0 } [.req notAUid [.sched "x" (some 1001) 63 0 [10] true]]).1 1001 with
+  | nil => rw [hl] at hne; cases hne
+  | cons t r =>
+    obtain ⟨f, hfm, _⟩ := hB t (by rw [hl]; exact List.mem_cons_self)
+    rw [hfe] at hfm
+    cases hfm
 
 end C11
